@@ -953,7 +953,8 @@ func getJsTag(tag string) string {
 }
 
 func needsSpace(c byte) bool {
-	return (c >= 'a' && c <= 'z') || (c >= 'A' && c <= 'Z') || (c >= '0' && c <= '9') || c == '_' || c == '$' || c == '\b'
+	// Bytes of non-ASCII characters are parts of identifiers too (e.g. labels).
+	return (c >= 'a' && c <= 'z') || (c >= 'A' && c <= 'Z') || (c >= '0' && c <= '9') || c == '_' || c == '$' || c == '\b' || c >= 0x80
 }
 
 func removeWhitespace(b []byte, minify bool) []byte {
